@@ -1,3 +1,353 @@
-(* Wallet/ProofsAnn.v — announcement lemmas behind Props_C16.v *)
+(* Wallet/ProofsAnn.v — announcement record and tip marker lemmas behind Props_C16.v *)
+From Coq Require Import Lia ZifyBool ZifyN.
 From HostdBase Require Import Base.
-From HostdWallet Require Import Model Lib.
+From HostdWallet Require Import Model Lib Proofs.
+
+(* the block contains an announcement signed by the host (v1 arbitrary data or v2 attestation) *)
+Definition host_ann (b : ablock) : bool :=
+  existsb (fun a : bool * N => fst a) (ab_v1 b) || existsb (fun a : bool * N * bool => fst (fst a)) (ab_v2 b).
+
+(* the record is empty or refers to a block of the chain that contains such an announcement *)
+Definition ann_ok (s : state) (C : list ablock) : Prop :=
+  match a_idx s with
+  | None => True
+  | Some i => exists b, In b C /\ ab_idx b = i /\ host_ann b = true
+  end.
+
+(* blocks disconnected by a batch with revert list rs *)
+Definition disconnected (C : list ablock) (rs : list rblock) : list ablock := firstn (length rs) C.
+
+(** * The revert loop *)
+Lemma ann_reverts_none last rs : ann_reverts last rs None None None = (None, None, None).
+Proof. induction rs as [|r t IH]; cbn; [reflexivity|]. destruct (opt_idx_is last (rb_idx r)); exact IH. Qed.
+
+Lemma ann_reverts_closed last rs ai aa ah :
+  ann_reverts last rs ai aa ah =
+  if existsb (fun r => opt_idx_is last (rb_idx r)) rs then (None, None, None) else (ai, aa, ah).
+Proof.
+  induction rs as [|r t IH]; cbn; [reflexivity|].
+  destruct (opt_idx_is last (rb_idx r)); cbn; [apply ann_reverts_none|exact IH].
+Qed.
+
+Lemma wf_reverts_idx : forall rs C, wf_reverts C rs ->
+  map rb_idx rs = map ab_idx (disconnected C rs) /\ C = disconnected C rs ++ skipn (length rs) C.
+Proof.
+  unfold disconnected. induction rs as [|r t IH]; intros C F; cbn [length firstn skipn map]; [split; reflexivity|].
+  destruct C as [|b C]; [destruct F|]. cbn [wf_reverts] in F. destruct F as [F1 [_ [_ [_ F5]]]].
+  destruct (IH C F5) as [E1 E2]. cbn [map app]. split; [congruence|]. f_equal. exact E2.
+Qed.
+
+Lemma reverted_iff last rs C i : wf_reverts C rs -> last = Some i ->
+  existsb (fun r => opt_idx_is last (rb_idx r)) rs = true <-> In i (map ab_idx (disconnected C rs)).
+Proof.
+  intros F ->. destruct (wf_reverts_idx rs C F) as [E _]. rewrite <- E.
+  rewrite existsb_exists. split.
+  - intros [r [Hr Q]]. cbn in Q. apply idx_eqb_eq in Q. rewrite <- Q. apply in_map. exact Hr.
+  - intros Hin. apply in_map_iff in Hin. destruct Hin as [r [Q Hr]]. exists r. split; [exact Hr|].
+    cbn. apply idx_eqb_eq. exact Q.
+Qed.
+
+(** * Announcements found in the applied blocks *)
+Lemma block_v1_spec b : forall cur i a, block_v1 b cur = Some (i, a) ->
+  cur = Some (i, a) \/ (i = ab_idx b /\ host_ann b = true).
+Proof.
+  unfold block_v1, host_ann. generalize (ab_v1 b) as l. induction l as [|[h ad] t IH]; intros cur i a; cbn [fold_left existsb].
+  - intros ->. left. reflexivity.
+  - intros H. apply IH in H. destruct h; cbn [fst snd] in *.
+    + destruct H as [[= <- <-]|[-> _]]; right; split; reflexivity.
+    + destruct H as [H|[-> H]]; [left; exact H|right; split; [reflexivity|exact H]].
+Qed.
+
+Lemma block_v2_spec b : forall cur i h ne, block_v2 b cur = Some (i, h, ne) ->
+  cur = Some (i, h, ne) \/ (i = ab_idx b /\ host_ann b = true).
+Proof.
+  unfold block_v2, host_ann. generalize (ab_v2 b) as l. induction l as [|[[hk hh] hn] t IH]; intros cur i h ne; cbn [fold_left existsb].
+  - intros ->. left. reflexivity.
+  - intros H. apply IH in H. destruct hk; cbn [fst snd] in *.
+    + destruct H as [[= <- <- <-]|[-> _]]; right; (split; [reflexivity|apply Bool.orb_true_r]).
+    + destruct H as [H|[-> H]]; [left; exact H|right; split; [reflexivity|exact H]].
+Qed.
+
+Lemma batch_v1_spec : forall bs cur i a, fold_left (fun c b => block_v1 b c) bs cur = Some (i, a) ->
+  cur = Some (i, a) \/ exists b, In b bs /\ ab_idx b = i /\ host_ann b = true.
+Proof.
+  induction bs as [|b t IH]; intros cur i a; cbn [fold_left].
+  - intros ->. left. reflexivity.
+  - intros H. apply IH in H. destruct H as [H|[b' [Hb' Q]]].
+    + apply block_v1_spec in H. destruct H as [H|[-> H]]; [left; exact H|].
+      right. exists b. split; [left; reflexivity|split; [reflexivity|exact H]].
+    + right. exists b'. split; [right; exact Hb'|exact Q].
+Qed.
+
+Lemma batch_v2_spec : forall bs cur i h ne, fold_left (fun c b => block_v2 b c) bs cur = Some (i, h, ne) ->
+  cur = Some (i, h, ne) \/ exists b, In b bs /\ ab_idx b = i /\ host_ann b = true.
+Proof.
+  induction bs as [|b t IH]; intros cur i h ne; cbn [fold_left].
+  - intros ->. left. reflexivity.
+  - intros H. apply IH in H. destruct H as [H|[b' [Hb' Q]]].
+    + apply block_v2_spec in H. destruct H as [H|[-> H]]; [left; exact H|].
+      right. exists b. split; [left; reflexivity|split; [reflexivity|exact H]].
+    + right. exists b'. split; [right; exact Hb'|exact Q].
+Qed.
+
+(** * One batch: exact effect on the record *)
+(* the batch contains an announcement of the host that the code records *)
+Definition records (bs : list ablock) : bool :=
+  match batch_v2 bs with
+  | Some (_, _, true) => true
+  | _ => match batch_v1 bs with Some _ => true | None => false end
+  end.
+
+Lemma settings_update_closed s rs bs :
+  let hit := existsb (fun r => opt_idx_is (a_idx s) (rb_idx r)) rs in
+  a_idx (settings_update s rs bs) =
+    match batch_v2 bs with
+    | Some (i, _, true) => Some i
+    | _ => match batch_v1 bs with Some (i, _) => Some i | None => if hit then None else a_idx s end
+    end /\
+  a_addr (settings_update s rs bs) =
+    match batch_v1 bs with Some (_, a) => Some a | None => if hit then None else a_addr s end /\
+  a_hash (settings_update s rs bs) =
+    match batch_v2 bs with Some (_, h, true) => Some h | _ => if hit then None else a_hash s end.
+Proof.
+  unfold settings_update. rewrite ann_reverts_closed.
+  destruct (existsb (fun r => opt_idx_is (a_idx s) (rb_idx r)) rs);
+    destruct (batch_v1 bs) as [[i a]|]; destruct (batch_v2 bs) as [[[i2 h2] [|]]|]; cbn; auto.
+Qed.
+
+(* the state components of a successful non-empty batch relevant to the record *)
+Lemma batch_ann s C rs bs s' : reach s C -> wf_batch C rs bs -> batch s rs bs = Ok s' ->
+  (rs <> [] \/ bs <> []) ->
+  exists s2, a_idx s2 = a_idx s /\ a_addr s2 = a_addr s /\ a_hash s2 = a_hash s /\
+    a_idx s' = a_idx (settings_update s2 rs bs) /\ a_addr s' = a_addr (settings_update s2 rs bs) /\
+    a_hash s' = a_hash (settings_update s2 rs bs).
+Proof.
+  intros R [F V] H Hne. pose proof (reach_winv s C R) as W.
+  destruct (batch_phases s rs bs s' H Hne) as [s1 [s2 [H1 [H2 [_ [_ [_ [_ [A1 [A2 [A3 _]]]]]]]]]]].
+  destruct (winv_reverts rs s C s1 W F H1) as [W1 [B1 [B2 [B3 _]]]].
+  destruct (winv_applies bs s1 _ s2 W1 V H2) as [_ [D1 [D2 [D3 _]]]].
+  exists s2. repeat split; congruence.
+Qed.
+
+Lemma ann_ok_batch_aux s C rs bs s' : reach s C -> ann_ok s C -> wf_batch C rs bs -> batch s rs bs = Ok s' ->
+  (rs <> [] \/ bs <> []) -> ann_ok s' (chain_after C rs bs).
+Proof.
+  intros R A F H Hne. destruct (batch_ann s C rs bs s' R F H Hne) as [s2 [E1 [E2 [E3 [A1 [A2 A3]]]]]].
+  destruct (settings_update_closed s2 rs bs) as [Q1 _]. cbn zeta in Q1.
+  unfold ann_ok. rewrite A1, Q1. unfold chain_after. destruct F as [F V].
+  assert (forall b, In b bs -> In b (rev bs ++ skipn (length rs) C)) as Hin.
+  { intros b Hb. apply in_or_app. left. apply in_rev in Hb. exact Hb. }
+  (* the v1 / unchanged part, shared by two branches *)
+  assert (match (match batch_v1 bs with
+                 | Some (i, _) => Some i
+                 | None => if existsb (fun r => opt_idx_is (a_idx s2) (rb_idx r)) rs then None else a_idx s2
+                 end) with
+          | None => True
+          | Some i => exists b, In b (rev bs ++ skipn (length rs) C) /\ ab_idx b = i /\ host_ann b = true
+          end) as Hv1.
+  { destruct (batch_v1 bs) as [[i a]|] eqn:V1.
+    - unfold batch_v1 in V1. apply batch_v1_spec in V1. destruct V1 as [V1|[b [Hb Q]]]; [discriminate|].
+      exists b. split; [apply Hin; exact Hb|exact Q].
+    - destruct (existsb (fun r => opt_idx_is (a_idx s2) (rb_idx r)) rs) eqn:Hit; [exact I|].
+      rewrite E1. unfold ann_ok in A. destruct (a_idx s) as [i0|] eqn:Ai; [|exact I].
+      destruct A as [b0 [Hb0 [Q0 HA0]]]. exists b0. split; [|split; [exact Q0|exact HA0]].
+      rewrite E1 in Hit.
+      destruct (wf_reverts_idx rs C F) as [_ Split]. rewrite Split in Hb0.
+      apply in_app_or in Hb0. destruct Hb0 as [Hb0|Hb0]; [|apply in_or_app; right; exact Hb0].
+      exfalso. assert (existsb (fun r => opt_idx_is (Some i0) (rb_idx r)) rs = true) as T.
+      { apply (reverted_iff (Some i0) rs C i0 F eq_refl). rewrite <- Q0. apply in_map. exact Hb0. }
+      congruence. }
+  destruct (batch_v2 bs) as [[[i2 h2] ne]|] eqn:V2; [|exact Hv1].
+  destruct ne; [|exact Hv1].
+  unfold batch_v2 in V2. apply batch_v2_spec in V2. destruct V2 as [V2|[b [Hb Q]]]; [discriminate|].
+  exists b. split; [apply Hin; exact Hb|exact Q].
+Qed.
+
+Lemma ann_ok_batch s C rs bs s' : reach s C -> ann_ok s C -> wf_batch C rs bs -> batch s rs bs = Ok s' ->
+  ann_ok s' (chain_after C rs bs).
+Proof.
+  intros R A F H. destruct rs as [|r rs'] eqn:Ers; [destruct bs as [|b bs'] eqn:Ebs|].
+  - cbn in H. injection H as <-. exact A.
+  - apply (ann_ok_batch_aux s C [] (b :: bs') s' R A F H). right. discriminate.
+  - apply (ann_ok_batch_aux s C (r :: rs') bs s' R A F H). left. discriminate.
+Qed.
+
+Theorem reach_ann_ok s C : reach s C -> ann_ok s C.
+Proof.
+  induction 1 as [|s C rs bs s' R IH F H|s C R IH].
+  - exact I.
+  - exact (ann_ok_batch s C rs bs s' R IH F H).
+  - exact I.
+Qed.
+
+(* cleared exactly when the block the record refers to is disconnected *)
+Lemma ann_cleared_iff s C rs bs s' i : reach s C -> a_idx s = Some i -> wf_batch C rs bs ->
+  batch s rs bs = Ok s' -> records bs = false ->
+  (In i (map ab_idx (disconnected C rs)) -> a_idx s' = None /\ a_addr s' = None /\ a_hash s' = None) /\
+  (~ In i (map ab_idx (disconnected C rs)) ->
+     a_idx s' = Some i /\ a_addr s' = a_addr s /\ a_hash s' = a_hash s).
+Proof.
+  intros R Ai F H Rec.
+  destruct rs as [|r rs'] eqn:Ers; [destruct bs as [|b bs'] eqn:Ebs|].
+  - cbn in H. injection H as <-. cbn. split; [tauto|]. intros _. auto.
+  - assert (@nil rblock <> [] \/ b :: bs' <> []) as Hne by (right; discriminate).
+    destruct (batch_ann s C [] (b :: bs') s' R F H Hne) as [s2 [E1 [E2 [E3 [A1 [A2 A3]]]]]].
+    destruct (settings_update_closed s2 [] (b :: bs')) as [Q1 [Q2 Q3]]. cbn zeta in *.
+    unfold records in Rec. rewrite A1, A2, A3, Q1, Q2, Q3. cbn [existsb disconnected length firstn map In].
+    destruct (batch_v2 (b :: bs')) as [[[i2 h2] [|]]|]; try discriminate;
+      destruct (batch_v1 (b :: bs')) as [[i1 a1]|]; try discriminate; (split; [tauto|intros _; repeat split; congruence]).
+  - assert (r :: rs' <> [] \/ bs <> []) as Hne by (left; discriminate).
+    destruct (batch_ann s C (r :: rs') bs s' R F H Hne) as [s2 [E1 [E2 [E3 [A1 [A2 A3]]]]]].
+    destruct (settings_update_closed s2 (r :: rs') bs) as [Q1 [Q2 Q3]]. cbn zeta in *.
+    destruct F as [F V].
+    pose proof (reverted_iff (a_idx s2) (r :: rs') C i F (eq_trans E1 Ai)) as Hit.
+    unfold records in Rec. rewrite A1, A2, A3, Q1, Q2, Q3.
+    destruct (existsb (fun r0 => opt_idx_is (a_idx s2) (rb_idx r0)) (r :: rs')) eqn:X.
+    + assert (In i (map ab_idx (disconnected C (r :: rs')))) as Hin by (apply Hit; reflexivity).
+      destruct (batch_v2 bs) as [[[i2 h2] [|]]|]; try discriminate;
+        destruct (batch_v1 bs) as [[i1 a1]|]; try discriminate; (split; [auto|tauto]).
+    + assert (~ In i (map ab_idx (disconnected C (r :: rs')))) as Hnin.
+      { intros Hin. apply Hit in Hin. discriminate. }
+      destruct (batch_v2 bs) as [[[i2 h2] [|]]|]; try discriminate;
+        destruct (batch_v1 bs) as [[i1 a1]|]; try discriminate; (split; [tauto|intros _; repeat split; congruence]).
+Qed.
+
+(** * Tip marker *)
+Lemma rev_cons_head (A : Type) (r : A) t : t <> [] -> exists x y y', rev (r :: t) = x :: y /\ rev t = x :: y'.
+Proof.
+  intros Hne. cbn [rev]. destruct (rev t) as [|x y] eqn:E.
+  - exfalso. apply Hne. rewrite <- (rev_involutive t), E. reflexivity.
+  - exists x, (y ++ [r]), y. split; reflexivity.
+Qed.
+
+Lemma wf_reverts_last : forall rs C p X, wf_reverts C rs -> rs <> [] ->
+  skipn (length rs) C = p :: X -> exists r y, rev rs = r :: y /\ rb_parent r = ab_idx p.
+Proof.
+  induction rs as [|r t IH]; intros C p X F Hne Hs; [congruence|].
+  destruct C as [|b C]; [destruct F|]. cbn [wf_reverts] in F. destruct F as [_ [_ [_ [F4 F5]]]].
+  cbn [length skipn] in Hs. destruct t as [|r2 t].
+  - cbn in Hs. subst C. exists r, []. split; [reflexivity|exact F4].
+  - destruct (IH C p X F5 ltac:(discriminate) Hs) as [x [y [E Q]]].
+    destruct (rev_cons_head rblock r (r2 :: t) ltac:(discriminate)) as [x' [y1 [y2 [E1 E2]]]].
+    exists x', y1. split; [exact E1|]. rewrite E in E2. injection E2 as -> _. exact Q.
+Qed.
+
+Definition tip_ok (s : state) (C : list ablock) : Prop :=
+  match C with [] => True | b :: _ => tip s = Some (ab_idx b) end.
+
+Lemma tip_ok_batch s C rs bs s' : reach s C -> tip_ok s C -> wf_batch C rs bs -> batch s rs bs = Ok s' ->
+  tip_ok s' (chain_after C rs bs).
+Proof.
+  intros R T F H. destruct rs as [|r rs'] eqn:Ers; [destruct bs as [|b bs'] eqn:Ebs|].
+  - cbn in H. injection H as <-. exact T.
+  - assert (@nil rblock <> [] \/ b :: bs' <> []) as Hne by (right; discriminate).
+    destruct (batch_phases s [] (b :: bs') s' H Hne) as [s1 [s2 [_ [_ [_ [_ [_ [_ [_ [_ [_ Tp]]]]]]]]]]].
+    unfold tip_ok, chain_after. unfold last_idx in Tp.
+    destruct (rev (b :: bs')) as [|x y] eqn:E.
+    + exfalso. assert (b :: bs' = []) by (rewrite <- (rev_involutive (b :: bs')), E; reflexivity). discriminate.
+    + cbn [app]. exact Tp.
+  - assert (r :: rs' <> [] \/ bs <> []) as Hne by (left; discriminate).
+    destruct (batch_phases s (r :: rs') bs s' H Hne) as [s1 [s2 [_ [_ [_ [_ [_ [_ [_ [_ [_ Tp]]]]]]]]]]].
+    unfold tip_ok, chain_after. unfold last_idx in Tp.
+    destruct (rev bs) as [|x y] eqn:E; [|cbn [app]; exact Tp].
+    cbn [app]. destruct (skipn (length (r :: rs')) C) as [|p X] eqn:Sk; [exact I|].
+    destruct F as [F _].
+    destruct (wf_reverts_last (r :: rs') C p X F ltac:(discriminate) Sk) as [x [y [E1 Q]]].
+    rewrite E1 in Tp. rewrite Tp, Q. reflexivity.
+Qed.
+
+Theorem reach_tip_ok s C : reach s C -> tip_ok s C.
+Proof.
+  induction 1 as [|s C rs bs s' R IH F H|s C R IH].
+  - exact I.
+  - exact (tip_ok_batch s C rs bs s' R IH F H).
+  - exact I.
+Qed.
+
+(** * Reset *)
+Lemma reset_spec s : reset s = init /\ utxos (reset s) = [] /\ events (reset s) = [] /\
+  (forall now, sread (mbal (reset s)) now = 0%N /\ sread (mimm (reset s)) now = 0%N) /\
+  a_idx (reset s) = None /\ a_addr (reset s) = None /\ a_hash (reset s) = None /\ tip (reset s) = None.
+Proof. cbn. repeat split; reflexivity. Qed.
+
+(** * Histories as operation lists (the [step] function the correspondence check runs) *)
+Fixpoint wf_ops (s : state) (C : list ablock) (l : list op) : Prop :=
+  match l with
+  | [] => True
+  | Batch rs bs :: t =>
+      match batch s rs bs with
+      | Ok s' => wf_batch C rs bs /\ wf_ops s' (chain_after C rs bs) t
+      | _ => wf_ops s C t                       (* a failed batch is rolled back *)
+      end
+  | Reset :: t => wf_ops (reset s) [] t
+  | Observe _ :: t => wf_ops s C t
+  end.
+
+Fixpoint ghost (s : state) (C : list ablock) (l : list op) : list ablock :=
+  match l with
+  | [] => C
+  | Batch rs bs :: t =>
+      match batch s rs bs with
+      | Ok s' => ghost s' (chain_after C rs bs) t
+      | _ => ghost s C t
+      end
+  | Reset :: t => ghost (reset s) [] t
+  | Observe _ :: t => ghost s C t
+  end.
+
+Definition runs (s : state) (l : list op) : state := fold_left (fun s o => fst (step s o)) l s.
+
+Lemma runs_reach : forall l s C, reach s C -> wf_ops s C l -> reach (runs s l) (ghost s C l).
+Proof.
+  induction l as [|o t IH]; intros s C R W; [exact R|].
+  destruct o as [rs bs| |now]; cbn [wf_ops ghost] in *; unfold runs; cbn [fold_left step].
+  - destruct (batch s rs bs) as [s'| |] eqn:E; cbn [fst].
+    + destruct W as [F W]. apply IH; [|exact W]. exact (reach_batch s C rs bs s' R F E).
+    + apply IH; assumption.
+    + apply IH; assumption.
+  - cbn [fst]. apply IH; [|exact W]. apply (reach_reset s C R).
+  - cbn [fst]. apply IH; assumption.
+Qed.
+
+(** * A concrete history (non-vacuity): payout maturing at 3, v1 announcement in block 2,
+      spend at the maturity height in block 3, block 3 disconnected *)
+Definition ix (h b : N) : idx := {| ih := h; ib := b |}.
+Definition wit_e1 : elem := {| eid := 1; eval := 7; emat := 3 |}.
+Definition wit_b1 : ablock := {| ab_idx := ix 1 1; ab_ts := 1000; ab_created := [wit_e1]; ab_spent := [];
+  ab_events := [{| vid := 1; vix := ix 1 1; vmat := 3 |}]; ab_v1 := []; ab_v2 := [] |}.
+Definition wit_b2 : ablock := {| ab_idx := ix 2 2; ab_ts := 1600; ab_created := []; ab_spent := [];
+  ab_events := []; ab_v1 := [(true, 5%N)]; ab_v2 := [] |}.
+Definition wit_b3 : ablock := {| ab_idx := ix 3 3; ab_ts := 2200; ab_created := []; ab_spent := [wit_e1];
+  ab_events := []; ab_v1 := []; ab_v2 := [] |}.
+Definition wit_r3 : rblock := {| rb_idx := ix 3 3; rb_parent := ix 2 2; rb_ts := 2200; rb_removed := []; rb_unspent := [wit_e1] |}.
+Definition wit_ops : list op := [Batch [] [wit_b1; wit_b2]; Batch [] [wit_b3]; Batch [wit_r3] []].
+
+Ltac wit_solve :=
+  cbn; intuition (subst; cbn; try reflexivity; auto);
+  repeat (constructor; cbn; try tauto);
+  try (match goal with H : _ \/ False |- _ => destruct H as [<-|[]] end; reflexivity).
+
+Lemma wit_wf : wf_ops init [] wit_ops.
+Proof.
+  cbn [wit_ops wf_ops].
+  assert (batch init [] [wit_b1; wit_b2] = Ok (runs init [Batch [] [wit_b1; wit_b2]])) as E1 by (vm_compute; reflexivity).
+  rewrite E1. split.
+  { split; [exact I|]. wit_solve. }
+  assert (batch (runs init [Batch [] [wit_b1; wit_b2]]) [] [wit_b3] = Ok (runs init [Batch [] [wit_b1; wit_b2]; Batch [] [wit_b3]])) as E2 by (vm_compute; reflexivity).
+  cbn [wf_ops]. rewrite E2. split.
+  { split; [exact I|]. wit_solve. }
+  assert (batch (runs init [Batch [] [wit_b1; wit_b2]; Batch [] [wit_b3]]) [wit_r3] [] = Ok (runs init wit_ops)) as E3 by (vm_compute; reflexivity).
+  cbn [wf_ops]. rewrite E3. split; [|exact I].
+  split; [cbn; repeat split; reflexivity|].
+  wit_solve.
+Qed.
+
+Lemma nonvacuous_witness :
+  reach (runs init wit_ops) [wit_b2; wit_b1] /\
+  utxos (runs init wit_ops) = [wit_e1] /\ scur (mbal (runs init wit_ops)) = 0%N /\
+  scur (mimm (runs init wit_ops)) = 7%N /\ a_idx (runs init wit_ops) = Some (ix 2 2) /\
+  tip (runs init wit_ops) = Some (ix 2 2).
+Proof.
+  split; [|vm_compute; repeat split; reflexivity].
+  exact (runs_reach wit_ops init [] reach_init wit_wf).
+Qed.
